@@ -483,3 +483,67 @@ NATIVE_DEC_CHOICE = Contract(
         ('nothing-chosen-only-if-no-key-names-one', 'result.assignments == 0 ==> none_before(keys, len(keys))')],
     note='D_HAS here means "names an alternative of the CHOICE"')
 CONTRACTS = CONTRACTS + [NATIVE_DEC_COLLECTION, NATIVE_DEC_CHOICE]
+
+
+# ---- an untagged ANY of indefinite length captures header + every fragment (raw) + its own end-of-octets (C18) -------------------
+from contracts.ber_decoder import END_OF_OCTETS as _EOO
+from pyvc.core import inr as _inr, S as _SS, I as _II
+
+
+def _any_fragment(ex, substrate, asn1Spec=None, tagSet=None, length=None, state=None, **kw):
+    """decodeFun with the raw collector: one complete fragment TLV consumed and returned as octets; the marker when allowed"""
+    allow = kw.get('allowEoo') is True
+    if allow and ex.choose(ex.fresh('fragment.eoo', BoolSort()), 'end-of-octets'):
+        return _EOO
+    if ex.choose(ex.fresh('fragment.raises', BoolSort()), 'fragment-raises'):
+        raise _Raise(ExcV('PyAsn1Error'))
+    n = ex.fresh('fragment.n', _II)
+    ex.assume(n >= 2)
+    substrate.fields['pos'] = substrate.fields['pos'] + n
+    z = ex.fresh('fragment.octets', _SS)
+    ex.assume(_inr(z))
+    ok = isinstance(asn1Spec, Obj) and asn1Spec.name == 'protoComponent' and isinstance(kw.get('substrateFun'), FnV) and \
+        kw['substrateFun'].name == 'substrateCollector'
+    substrate.fields['fragsOk'] = And(substrate.fields['fragsOk'], z3.BoolVal(bool(ok)))
+    substrate.fields['frags'] = SeqV(z3.Concat(substrate.fields['frags'].z, z), 'bytes')
+    return SeqV(z, 'bytes')
+
+
+_any_fragment.is_generator_model = True
+
+
+def _any_indef_params():
+    p = any_params('complete')
+
+    def stream(ex, env):
+        s = _marked_stream(ex, env, 'complete')
+        s.fields['frags'] = SeqV(z3.Empty(_SS), 'bytes')
+        s.fields['fragsOk'] = z3.BoolVal(True)
+        return s
+    p['substrate'] = PDerived(stream)
+    p['self'] = PObj('AnyPayloadDecoder', methods={'_createComponent': create_component},
+                     protoComponent=PConst(Obj('Any', {}, name='protoComponent')),
+                     substrateCollector=PConst(FnV(lambda ex, *a, **k: None, 'substrateCollector')))
+    return p
+
+
+ANY_INDEF = Contract(
+    id='ber.decoder::AnyPayloadDecoder.indefLenValueDecoder[untagged,complete]', file=D, qual='AnyPayloadDecoder.indefLenValueDecoder',
+    properties=['C18', 'C09', 'C11'], is_generator=True, params=_any_indef_params(),
+    globals={'eoo': {'endOfOctets': _EOO, '__name__': 'eoo'}, 'os': {'SEEK_SET': 0, '__name__': 'os'},
+             'EOO_SENTINEL': SeqV(z3.Concat(z3.Unit(z3.IntVal(0)), z3.Unit(z3.IntVal(0))), 'bytes'),
+             'null': SeqV(z3.Empty(_SS), 'bytes')},
+    calls={'readFromStream': _read_model('complete'), 'decodeFun': _any_fragment},
+    loops={2: Loop(invariant=['not value_yielded()', 'isinstance(chunk, bytes)', 'substrate.fragsOk',
+                              'chunk == X.cat(X.sub(substrate.data, mark, old(substrate.pos)), substrate.frags)',
+                              'substrate.pos >= old(substrate.pos)'],
+                   havoc_fields=['substrate.pos', 'substrate.frags', 'substrate.fragsOk'])},
+    yield_ensures=[
+        # with resolution off the field holds exactly the complete encoding: header, every fragment as it came, and the
+        # value's own end-of-octets
+        ('captures-header-fragments-and-marker', 'last_yield().value == X.cat(X.sub(substrate.data, mark, old(substrate.pos)), '
+                                                 'substrate.frags, X.seq(0, 0)) and substrate.fragsOk')],
+    exit_ensures=[('one-result', 'nyields() == 1')],
+    may_raise={'PyAsn1Error': True, 'EndOfStreamError': True},
+    external=['captures-header-fragments-and-marker', 'one-result'])
+CONTRACTS = CONTRACTS + [ANY_INDEF]
